@@ -569,3 +569,21 @@ impl PokeByte for VArray {
         element.poke_byte(offset, value)
     }
 }
+
+#[cfg(feature = "verif")]
+impl Context {
+    /// Number of context states (normal + argument collecting).
+    pub fn verif_states_len(&self) -> usize {
+        self.states.len()
+    }
+
+    /// Number of states that are currently collecting arguments.
+    pub fn verif_argument_states_len(&self) -> usize {
+        self.states.iter().filter(|s| s.arguments.is_some()).count()
+    }
+
+    /// The variables of every memory block (index 0 is the global block).
+    pub fn verif_memory_blocks(&self) -> Vec<&Variables> {
+        self.memory_blocks.iter().map(|b| &b.variables).collect()
+    }
+}
